@@ -199,6 +199,10 @@ impl RtrStream {
         keepalive: Option<Duration>,
         server_metrics: &RtrServerMetrics,
     ) -> Result<Self, io::Error> {
+        #[cfg(feature = "verif-hooks")]
+        if crate::verif::fault("rtr.setup", || addr.to_string()).is_some() {
+            return Err(io::Error::other("injected setup failure"))
+        }
         if let Some(duration) = keepalive {
             Self::set_keepalive(&sock, duration)?
         }
@@ -315,6 +319,8 @@ impl AsyncWrite for RtrStream {
 
 impl Drop for RtrStream {
     fn drop(&mut self) {
+        #[cfg(feature = "verif-hooks")]
+        let _verif = crate::verif::PointOnDrop("rtr.stream.drop");
         self.metrics.update(|metrics| metrics.dec_current_connections())
     }
 }
